@@ -375,6 +375,10 @@ class MultiStream(Stream):
         if phase in streams:
             stream = streams[phase]
         else:
+            phases = self._imol._phases
+            if phase not in phases: # Views are kept under the exact label of their phase
+                other = phase.lower() if phase.isupper() else phase.upper()
+                if other in phases: return self[other]
             stream = Stream.__new__(Stream)
             stream._ID = stream._sink = stream._source = None
             stream._price = 0.
@@ -472,7 +476,7 @@ class MultiStream(Stream):
             self._imol = imol = self._imol.to_material_indexer(phases)
             streams = self._streams
             for phase in tuple(streams):
-                if phase in imol._phase_indexer: streams[phase]._imol = imol.get_phase(phase)
+                if phase in imol._phases: streams[phase]._imol = imol.get_phase(phase) # Exact label, not its other case
                 else: del streams[phase]
             self.reset_cache()
     
